@@ -74,6 +74,14 @@ def stepL (c : CS) (l : Line) : CS :=
           | some n => if n ≠ l.bytes "name" then mism c s!"SPEC[name] loaded object's Name {l.str "name"} ≠ nameAlg ‖ H(public area) {hexOfBytes n}" else c
           | none => c
       else if l.nat "rc" = 0 then mism c s!"SPEC[blob-accepted] a private blob loaded although it was {what}" else c
+  | "import" =>
+      let c := ev c
+      let what := l.str "what"
+      let c := branch c s!"import/{what}/rc0={l.nat "rc" == 0}"
+      if what = "intact" then
+        (if l.nat "rc" ≠ 0 then mism c s!"SPEC[import-refused] an unmodified duplicate is not accepted by TPM2_Import under the parent it was made for (rc={l.nat "rc"})" else c)
+      else if l.nat "rc" = 0 then mism c s!"SPEC[blob-accepted] TPM2_Import accepted a duplicate although it was {what}" else c
+  | "duplicate" => if l.nat "rc" ≠ 0 then mism (ev c) s!"SPEC[duplicate-refused] TPM2_Duplicate authorized by the object's policy answered rc={l.nat "rc"}" else branch (ev c) "duplicate/ok"
   | "evict" =>
       let c := ev c
       if l.nat "rc" ≠ 0 then branch c s!"evict/refused/{l.nat "rc"}" else
